@@ -133,6 +133,9 @@ class CandleManager:
         if init_candle.timestamp is None:
             return
 
+        # like every later candle: fractions of a second are dropped before the bucket is worked out
+        init_candle.timestamp = clean_timestamp(init_candle.timestamp)
+
         start_time = round_down_timestamp(init_candle.timestamp, timeframe_)
         end_time = start_time + timeframe_
 
